@@ -110,12 +110,16 @@ def is_scalar(v):
 
 
 def kind_of(v):
+    if hasattr(v, "force"):
+        v = v.force()
     if isinstance(v, SV):
         return v.k
     return lit(v)[0]
 
 
 def term(v):
+    if hasattr(v, "force"):
+        v = v.force()
     if isinstance(v, SV):
         return v.t
     return lit(v)[1]
@@ -171,7 +175,7 @@ def simplify_bool(t):
 
 
 class VC:
-    __slots__ = ("name", "pc", "goal", "path", "kind", "status", "solver", "secs", "model", "note", "info")
+    __slots__ = ("name", "pc", "goal", "path", "kind", "status", "solver", "secs", "model", "note", "info", "z3_quick", "_answers", "_want")
 
     def __init__(self, name, pc, goal, path, kind="assert", info=None):
         self.name = name
@@ -204,6 +208,7 @@ class Ctx:
         self.solver_secs = 0.0
         self.axioms = []  # global axioms (quantified facts of spec functions) — part of every VC
         self.assumptions_used = set()
+        self.bool_labels = set()
 
     # ---- path condition ------------------------------------------------------------------
     def assume(self, t, why=None):
@@ -236,7 +241,12 @@ class Ctx:
 
     # ---- decisions -----------------------------------------------------------------------
     def path_sig(self):
-        return ".".join(f"{lbl}={c}" for (c, n, lbl, forced) in self.taken if lbl)
+        def show(c, n, lbl):
+            if lbl.startswith(("if@", "while@", "for@")) or n == 2 and lbl in self.bool_labels:
+                return f"{lbl}={'T' if c == 0 else 'F'}"
+            return f"{lbl}={c}"
+
+        return ".".join(show(c, n, lbl) for (c, n, lbl, forced) in self.taken if lbl)
 
     def choose(self, n, label="", feasible_of=None):
         """n-way nondeterministic choice.  feasible_of(i) -> optional z3 condition that choice i implies;
@@ -259,6 +269,23 @@ class Ctx:
             self.alternatives.append([x[0] for x in self.taken[:-1]] + [alt])
         return c
 
+    def proved(self, cond, label="proved"):
+        """Is pc ==> cond valid?  (engine-internal query, e.g. 'this part is a clean path component'.)
+        The answer is recorded in the decision trace so that replays of this path do not depend on solver timing."""
+        idx = len(self.taken)
+        if idx < len(self.prefix):
+            c = self.prefix[idx]
+            self.taken.append((c, 2, "", True))
+            return c == 1
+        d = simplify_bool(cond) if not isinstance(cond, bool) else cond
+        if d is None:
+            t0 = time.time()
+            r = self.solver.check(z3.Not(cond))
+            self.solver_secs += time.time() - t0
+            d = r == z3.unsat
+        self.taken.append((1 if d else 0, 2, "", True))
+        return d
+
     def _cond_feasible(self, cond):
         if cond is None:
             return True
@@ -276,6 +303,7 @@ class Ctx:
         d = simplify_bool(cond)
         if d is not None:
             return d
+        self.bool_labels.add(label)
         c = self.choose(2, label, feasible_of=lambda i: cond if i == 0 else z3.Not(cond))
         if c == 0:
             self.assume(cond)
